@@ -503,3 +503,53 @@ Proof.
   apply (run_pkgs_agree fmt order G wps fuel Hnd gens Hfmt a modroot _ Hchg Hfuel).
   intros x Hx. unfold sort_wps in Hx. exact (proj1 (sort_by_In wp_path wps x) Hx).
 Qed.
+
+(* ---------- C06's exactly-once, OF the pipeline trace ---------- *)
+Require Import Gengo.Proofs.WholeTrace.
+
+(* In a successful run, for a processed package wp and a generator g of the run, the run's call log contains — as
+   one contiguous segment — calls [cs] followed by the callbacks, where [cs] is characterised exactly as in
+   C06_exactly_once (each enabled package-scope named type once with GenerateType; each enabled alias once with
+   GenerateAliasType iff g is an AliasGenerator; nothing else), and every callback of the forest registered by
+   those calls runs exactly once (the pipeline's callback indices are 0, 1, 2, ... in order). *)
+Theorem pipeline_exactly_once : forall fmt order G wps fuel gens a modroot s wp g,
+  NoDup (map wp_path wps) -> In wp wps -> In g gens ->
+  NoDup (D.keys G) -> NoDup (D.keys (P_of wp)) ->
+  (forall d, In d (D.pk_defs (wp_d wp)) -> NoDup (D.keys (D.td_tags d))) ->
+  NoDup (map D.td_name (filter D.td_pkgscope (D.pk_defs (wp_d wp)))) ->
+  (forall d, In d (D.pk_defs (wp_d wp)) -> D.td_action d <> D.AErr) ->
+  (forall d, In d (D.pk_defs (wp_d wp)) -> forallb D.no_err_tree (D.td_defers d) = true) ->
+  fuel_ok G fuel wp g ->
+  let E := whole_env fmt order G in
+  let w := to_world modroot wps in
+  let gs := map (disp_gen wps fuel) gens in
+  exec_outcome E a w gs s = Done -> processed E a w s (to_pkginfo wp) = true ->
+  exists cs ran pre post,
+    NoDup cs
+    /\ (forall k d, In (k, d) cs <->
+          In d (D.pk_defs (wp_d wp)) /\ D.td_pkgscope d = true
+          /\ DP.enabled_eff_spec (D.g_name g) G (P_of wp) (D.td_tags d) = true
+          /\ ((k = D.CT /\ D.td_kind d = D.KNamed) \/ (k = D.CA /\ D.td_kind d = D.KAlias /\ D.g_alias g = true)))
+    /\ Permutation (map D.root_id ran) (D.ids_all (D.registered cs))
+    /\ exec_trace E a w gs s
+       = pre ++ (map (tr_call wp g) cs ++ map (tr_defer wp g) (combine (seq 0 (List.length ran)) ran)) ++ post.
+Proof.
+  intros fmt order G wps fuel gens a modroot s wp g Hnd Hwp Hg HG HP Htags Hnames Hnoerr Hdefok Hfuel E w gs Hdone Hproc.
+  destruct (gen_run_agree fmt order G wps fuel Hnd wp g Hwp Hfuel) as [cs [e [ran [e2 [Hdg [Hdefs [Hq [Ht _]]]]]]]].
+  destruct (DP.exactly_once g G (P_of wp) (D.pk_defs (wp_d wp)) (D.pk_defs (wp_d wp))
+              (D.keys (D.type_table true (D.pk_defs (wp_d wp)))) HG HP Htags Hnames
+              (Permutation_refl _) (Permutation_refl _) Hnoerr) as [cs' [Hdg' [Hnd' Hiff]]].
+  fold (wp_table wp) in Hdg'. rewrite Hdg in Hdg'. inversion Hdg'; subst cs' e. clear Hdg'.
+  (* no callback fails: the queue runs the whole forest *)
+  assert (Hreg : forallb D.no_err_tree (D.registered cs) = true).
+  { unfold D.registered. clear - Hdefs Hdefok. induction cs as [|c r IH]; [reflexivity|].
+    cbn [flat_map]. rewrite forallb_app. rewrite IH by (intros x Hx; apply Hdefs; right; exact Hx).
+    destruct (D.is_nil_action (D.td_action (snd c))); [|reflexivity].
+    rewrite (Hdefok (snd c) (Hdefs c (or_introl eq_refl))). reflexivity. }
+  destruct (DP.run_defers_queue_ok (D.qsize (D.registered cs)) (D.registered cs) (le_n _) Hreg) as [l [Hl [Hperm _]]].
+  rewrite Hl in Hq. inversion Hq; subst l e2.
+  destruct (exec_trace_segment E a w gs s (to_pkginfo wp) (disp_gen wps fuel g) Hdone) as [pre [post Hseg]].
+  { cbn [w_pkgs w to_world]. apply in_map. exact Hwp. } { exact Hproc. } { unfold gs. apply in_map. exact Hg. }
+  exists cs, ran, pre, post. split; [exact Hnd'|]. split; [exact Hiff|]. split; [exact Hperm|].
+  rewrite Hseg. unfold E. rewrite Ht. reflexivity.
+Qed.
